@@ -1028,13 +1028,29 @@ def _np_unique(it, args, kwargs):
     count as equal to themselves here - NumPy's equal_nan=True)."""
     from .speclib import Perm
     a = as_arr(it, args[0])
+    if not kwargs and len(args) == 1:
+        # np.unique(a): the sorted distinct values; only their NUMBER is modelled (the uninterpreted count_distinct statistic of
+        # the elements, as for len(set(...))), the values themselves are unknown
+        from .core import intof
+        n = intof(stat_term(it, "count_distinct", a.seq))
+        it.ctx.assume(z3.And(n >= 0, n <= zint(a.seq.len)))
+        vals = it.ctx.fresh_fn("uniq_val", INT, V)
+        it.ctx.used_models.add("np.unique(a): number of results = number of distinct elements (uninterpreted) - assumed")
+        return NDArr(it.ctx, Seq(n, lambda j: vals(j), V), a.kind, "fresh", None)
     if not kwargs.get("return_index") or kwargs.get("return_inverse"):
         raise Unsupported("np.unique without return_index / with return_inverse")
     ctx = it.ctx
     s = a.seq
     q = z3.Int("q!un")
-    same = lambda p, r: s.at(p) == s.at(r) if s.sort != V else z3.Or(s.at(p) == s.at(r), z3.And(is_nan(s.at(p)), is_nan(s.at(r))),
-                                                                   z3.And(is_nat(s.at(p)), is_nat(s.at(r))))
+    equal_nan = kwargs.get("equal_nan", True)
+    if equal_nan is not True and equal_nan is not False:
+        raise Unsupported("np.unique with a symbolic equal_nan")
+    if equal_nan:
+        same = lambda p, r: s.at(p) == s.at(r) if s.sort != V else z3.Or(s.at(p) == s.at(r), z3.And(is_nan(s.at(p)), is_nan(s.at(r))),
+                                                                       z3.And(is_nat(s.at(p)), is_nat(s.at(r))))
+    else:
+        # equal_nan=False: every NaN / NaT is a value of its own
+        same = lambda p, r: s.at(p) == s.at(r) if s.sort != V else z3.And(s.at(p) == s.at(r), z3.Not(is_nan(s.at(p))), z3.Not(is_nat(s.at(p))))
     first = lambda i: z3.Not(z3.Exists([q], z3.And(0 <= q, q < i, same(q, i))))
     e = Enum.of(ctx, s.len, first)
     inc = Seq(e.cnt, lambda j: e.idx(j), INT)
